@@ -363,6 +363,24 @@ pub fn far_entry(text: &str, o: Options) -> Out {
     }
 }
 
+/// `Value::parse_in` on an explicit `Parser`, with each of the four contexts as the context of the
+/// *root* value (the context tells a number which characters may follow it; at the root the
+/// document still has to end after the value, whatever the context): verdict only - the parser's
+/// code map is not accessible from outside.
+pub fn parse_in_verdicts(text: &str, o: Options) -> Vec<(&'static str, Result<bool, String>)> {
+    use json_syntax::parse::{Context, Parser};
+    [("parse_in(Context::None)", Context::None), ("parse_in(Context::Array)", Context::Array), ("parse_in(Context::ObjectKey)", Context::ObjectKey), ("parse_in(Context::ObjectValue)", Context::ObjectValue)]
+        .into_iter()
+        .map(|(name, ctx)| {
+            let r = explore::guard(|| {
+                let mut parser = Parser::new_with(text.chars().map(|c| Ok::<DecodedChar, Infallible>(DecodedChar::from_utf8(c))), o);
+                Value::parse_in(&mut parser, ctx).is_ok()
+            });
+            (name, r)
+        })
+        .collect()
+}
+
 /// Every entry point that takes text, with default (strict) options or explicit strict options.
 pub fn all_strict_text_entry_points(text: &str) -> Vec<(&'static str, Out)> {
     let dc = |c: char| DecodedChar::from_utf8(c);
